@@ -15,6 +15,7 @@ import hashlib, json, os, shutil, stat, tempfile
 import lib
 
 PH = b"@S@"
+PHSPLIT = b"@SPLIT@"   # as a list element: the sandbox path, one directory per element, the first with its leading separator
 U32 = (1 << 32) - 1
 
 
@@ -51,7 +52,14 @@ def subst(v, s):
     if isinstance(v, (bytes, bytearray)):
         return bytes(v).replace(PH, s)
     if isinstance(v, list):
-        return [subst(x, s) for x in v]
+        out = []
+        for x in v:
+            if isinstance(x, (bytes, bytearray)) and bytes(x) == PHSPLIT:
+                parts = s.strip(b"/").split(b"/")
+                out += [b"/" + parts[0]] + parts[1:]
+            else:
+                out.append(subst(x, s))
+        return out
     if isinstance(v, tuple) and v and v[0] == "d":
         return ("d", [(subst(k, s), subst(x, s)) for k, x in v[1]])
     if isinstance(v, dict):
